@@ -34,6 +34,9 @@ def cases(ctx):
     # serials
     for s in [1, 127, 128, 255, 256, 32767, 32768, 2 ** 31, 2 ** 63 - 1]:
         add(cfg("CN=s", serialNumber=s), "serial")
+    # configured serials beyond the signed 64-bit range: a configuration error, or - if a certificate comes out - a non-negative INTEGER all the same
+    for s in [2 ** 63, 2 ** 63 + 1, 3 * 2 ** 62, 2 ** 64 - 1, 2 ** 64, 2 ** 64 + 5]:
+        out.append(case(n[0] + 1, [("r.yaml", cfg("CN=s", serialNumber=s))], tag={"what": "serialBeyond", "mayFail": True})); n[0] += 1
     # fresh serials: many (a random serial below 2^160 needs 21 content octets half of the time)
     for i in range(48 if ctx.quick else 3000):
         add(cfg("CN=fresh %d" % i), "freshSerial")
@@ -113,6 +116,8 @@ def run(ctx, replay=None):
         stats.append(load_json(ctx.path("g%d.stats" % i)))
     by_id = {c["id"]: c for c in cs}
     for o in obs:
+        if o["result"] != "ok" and (o["tag"] or {}).get("mayFail") and o["result"] in ("failed", "refused"):
+            continue
         if o["result"] != "ok":
             ctx.violation("generation did not succeed for a valid configuration (%s): %s %s" % (o["tag"], o["result"], o["err"][:300]),
                           {"kind": "gen", "case": by_id[o["id"]], "result": o["result"], "what": "generation " + o["result"], "tagwhat": (o["tag"] or {}).get("what")})
